@@ -20,9 +20,9 @@ CLAIMS = {
         design="7/C11",
     ),
     "C13": dict(
-        text="PARTIAL proof + execution. Proved in Coq: for the magic of every final release the writer reproduces, every 32-bit timestamp/size and every payload, the header write_bytecode_file emits is, per that version's format (C06 spec), a timestamp header with exactly those fields (size from 3.3, zero PEP 552 flags from 3.7), and load_module's header parser (C06 model) reads them back and finds the payload where it was put. The payload round trip is decided by execution: sources compiled by the real 2.7, 3.6-3.10, loaded by xdis, written back, compared by the target's own marshal.loads (code-object == and constant kinds) and re-read by xdis; for 3.11+ targets the writer must raise.",
-        note="Trusted: Coq kernel; hand model coq/Model/WriteHeader.v + correspondence on every table magic; the real target interpreters as judges of code-object equality; 'behaves identically' is taken from that equality. The marshal payload writer (marsh.py dump_code2/3) is not modelled in Coq.",
-        technique="Coq round-trip proof of the header + differential execution on the target interpreters",
+        text="Machine-checked Coq proofs for Python 3.0-3.10 targets, plus execution. Header: for the magic of every final release the writer reproduces, every 32-bit timestamp/size and every payload, what write_bytecode_file emits is, per that version's format (C06 spec), a timestamp header with exactly those fields, and load_module's parser (C06 model) reads them back and finds the payload where it was put. Payload: for the magic of EVERY 3.0-3.10 version in xdis's table and EVERY well-formed code-object tree (any nesting of code objects in constants; constants of C14's kinds; 32-bit integer fields; posonlyargcount written exactly when that version's reader reads it) CPython's reader of that version (strict configuration of the shared reader model, validated against the interpreters in C10) loads the bytes dump_code3 wrote to the same tree and stops at their end, and so does xdis's own unmarshaller (re-read). The writer model is compared inside Coq, byte for byte, with what write_bytecode_file wrote for code compiled by the real 3.6-3.10; the real 2.7 and 3.6-3.10 interpreters compare their own marshal.loads of original and written file (code-object == and constant kinds); 3.11+ targets must be refused.",
+        note="Trusted: Coq kernel; hand models coq/Model/WriteHeader.v and coq/Model/Marsh.v (dumps incl. dump_code3) + correspondence; the shared reader model; the real target interpreters as judges of code-object equality ('behaves identically' is taken from that equality). Python 2 targets (dump_code2) are decided by execution on the real 2.7 only. Floats are written as text: the theorem returns the decimal string (repr is the host's). No axioms.",
+        technique="Coq round-trip proofs (header; reader of writer = identity by induction over code-object trees, generic in the reader configuration) + vm_compute obligations over the magic table + in-Coq correspondence + differential execution on the target interpreters",
         design="7/C13",
     ),
     "C14": dict(
